@@ -82,7 +82,8 @@ Inductive event :=
 | ETick (dt : Z)
 | ERelayErr (relay : addr)                                              (* relay socket read error *)
 | ECtlClose (src : addr)                                                (* the client's control connection (stream listeners) ends *)
-| ESrvClose.                                                            (* Server.Close: every allocation ends *)
+| ESrvClose                                                             (* Server.Close: every allocation ends *)
+| EDeadMsg.                                                             (* any message sent to the server after Server.Close: not processed *)
 
 Inductive sattr := SRelayed (a : addr) | SLifetime (secs : Z) | SMapped (a : addr) | SToken (t : N).
 
@@ -558,6 +559,7 @@ Definition step (cfg : config) (s : state) (e : event) : state * list action :=
   | ERelayErr relay => h_relay_err s relay
   | ECtlClose src => h_ctl_close s src
   | ESrvClose => h_srv_close s
+  | EDeadMsg => (s, [])
   end.
 
 Fixpoint run (cfg : config) (s : state) (h : list event) : state * list (list action) :=
